@@ -108,6 +108,23 @@ def number_set_callers(fx, rep, rule):
     return n
 
 
+def fixture(fxf):
+    """T-REACH self-test on fixtures/vp_fixture/src/reach.rs: good_* fully discharged, bad_* keeps an undischarged site"""
+    from vplib import report as R
+    out = []
+    for b in sorted(fxf.bodies.values(), key=lambda b: b.sname):
+        if not b.is_fn_like() or "reach::" not in b.sname:
+            continue
+        nm = b.item_name or ""
+        if not (nm.startswith("good_") or nm.startswith("bad_")):
+            continue
+        rep = R.Report("FIXTURE")
+        RC.run_reach(fxf, rep, [b.id], "none.json", "RF")
+        clean = all(o.ok for o in rep.obls)
+        out.append(("reach." + nm, nm.startswith("good_"), clean))
+    return out
+
+
 def run(ctx, rep):
     fx = ctx.facts
     ent = entries(fx)
